@@ -4,4 +4,4 @@ CONSTANTS
   Wide = TRUE
   AlphaCap = 5
   LenCap = 5
-  Budget = 800
+  Budget = 400
